@@ -31,6 +31,9 @@ func TestProp(t *testing.T) {
 		},
 		Parts: []pbt.Part{
 			pbt.NewPart("buildindex", 4, genBICase, runBICase),
+			pbt.NewPart("origin", 4, genORCase, runORCase),
+			pbt.NewPart("store", 3, genSTCase, runSTCase),
+			pbt.NewPart("agent", 1, genAGCase, runAGCase),
 		},
 	})
 }
